@@ -246,6 +246,12 @@ def handle : Handler := fun fn args =>
       .ok (res (fun (p : Reg × Forest (LBox V)) =>
           Json.mkObj [("reg", regToJson p.1), ("vars", forestToJson lboxToJson p.2)])
         (encodeStateTyped h r isMut st))
+  | "meta_add_axis" => do
+      let md ← metaOfJson (← argAt args 0)
+      .ok (metaToJson (nnxMetaAddAxis md (← asInt (← argAt args 1)) (← asStr (← argAt args 2))))
+  | "meta_remove_axis" => do
+      let md ← metaOfJson (← argAt args 0)
+      .ok (res metaToJson (nnxMetaRemoveAxis md (← asInt (← argAt args 1)) (← asStr (← argAt args 2))))
   | "decode_vars" => do
       let r ← regOfJson (← argAt args 0)
       let vars ← forestOfJson lboxOfJson (← argAt args 1)
